@@ -94,6 +94,7 @@ def is_nullable(name, info, nonnullable, hard_failing=(), summaries=None, time_c
     def run(it):
         it.env['g'] = G.GState()
         it.env['tls'] = G.fresh_tls(1, 1)
+        it.env['dir_depth_at_entry'] = 1
         it.env['const_hook'] = G.const_hook_tls
         it.env['summaries'] = summaries or {}
         it.env['nonnullable'] = nonnullable
@@ -149,6 +150,7 @@ def analyze(name, info, summaries=None, nonnullable=None, hard_failing=(), dir_d
     def run(it):
         it.env['g'] = G.GState()
         it.env['tls'] = G.fresh_tls(dir_depth, ver_depth)
+        it.env['dir_depth_at_entry'] = dir_depth
         it.env['const_hook'] = G.const_hook_tls
         it.env['summaries'] = summaries or {}
         it.env['nonnullable'] = nonnullable
